@@ -33,7 +33,9 @@ def run(ck):
                'distinct model-compared case with >=2 candidates on one side; end-to-end: random scenarios of 2..7 '
                'assertions over a target and 0..2 rival propositions (3 actors + unattributed, 3 evidence ids, 6 modes + '
                'an unknown mode, confidences incl. unstated, validity windows around the evaluation instants, '
-               'retracted/superseded), 3-4 recording orders x 6 query variants each')
+               'retracted/superseded), 3-4 recording orders x 6 query variants each; 3 hand-written scenarios '
+               '(unattributed claims, worked bridge) and the first 2 (quick) / 8 (thorough) random scenarios cut to 3..5 '
+               'assertions are recorded in ALL permutations')
     ck.translate(only=['gen_policy'])
     ck.coq(['Belief/Props.v'], ['Belief', 'gen'], model_targets=['Belief/Run.vo'])
     ck.trust('IEEE-754: f64::total_cmp is an antisymmetric, transitive total order on bit patterns '
@@ -41,11 +43,16 @@ def run(ck):
     ck.trust('order premises of C20_groups_are_components / C20_aggregate_perm / C20_aggregate_order_independent: the group '
              'confidence operation is the max of a total, transitive (for permutation results: antisymmetric) boolean '
              'order; discharged for Qle_bool in the *_exact theorems and for Z.leb in the non-vacuity example; f64::max '
-             'is such a max only away from NaN and signed zeros, so for binary64 the component/permutation results are '
-             'tied to the code by the correspondence runs, not by instantiation')
-    ck.assume('an Assertion written without asserted_by is stored with the endpoint key of JSON null, so the '
-              '"anonymous:<id>" arm of eligible is modelled but not reachable through KML (all unattributed claims '
-              'of a side share one actor key)')
+             'is such a max only away from NaN and -0.0: C20_aggregate_perm_float / C20_aggregate_float_order_independent '
+             'carry the restriction as the boolean premise fgood, which the check evaluates on every generated case')
+    ck.trust('IEEE-754 (premises of the *_float theorems): on binary64 values that are neither NaN nor -0.0, `<` is '
+             'asymmetric, its negation is transitive, and two values neither of which is below the other are the same '
+             'bit pattern')
+    ck.assume('observation, not part of C20 as stated: CREATE ASSERTION without asserted_by stores asserted_by = null and '
+              'asserted_by_key = the endpoint key of JSON null (non-empty), so the "anonymous:<id>" arm of eligible '
+              '(its comment: "its own group rather than joining a nameless one") is not reachable through KML and all '
+              'unattributed claims of a side form one group; the oracle, the model rows (actor key "lit:null") and the '
+              'generated fact unattributed_is_anonymous = false follow what the engine does')
     ck.assume('rows reach the projection already decoded; time strings compare bytewise as in the code',
               'hook anda_cognitive_nexus::projection::verif (cfg anda_verif) forwards to the private aggregate/classify')
     binary = ck.cargo('h_nexus')
@@ -88,6 +95,10 @@ def run(ck):
                     ck.eval_term(IMPORTS, 'run_pure ' + to_coq(model_rows[i]['case'])))
             ck.ob('model = implementation on %d cases (score bits, group counts, status)' % len(cases),
                   not bad, 'correspondence', detail)
+            good = ck.eval_cases(IMPORTS, 'pcase * pobs', 'pure_good', cases, label='pure_good')
+            ck.ob('premise of C20_aggregate_perm_float holds on all %d model-compared cases (no NaN, no -0.0 confidence)'
+                  % len(cases), all(g is True for g in good), 'correspondence',
+                  json.dumps(next((model_rows[i]['case'] for i, g in enumerate(good) if g is not True), ''))[:800])
             if bad and not summary['failures']:
                 # the grouping/order oracles saw nothing (e.g. a classification change): the failing input is the
                 # case on which the implementation leaves the model the theorems are about
@@ -103,7 +114,8 @@ def e2e(ck, binary, quick):
     """End-to-end: a real CognitiveNexus over InMemory, assertions written through KML in several recording
     orders, FIND(?b) WHERE { ... ?b BELIEF (?p) } with FOR TIME / WITH EPISTEMIC variants."""
     out = ck.work + '/c20e2e.jsonl'
-    args = ['c20e2e', '--out', out, '--scenarios', '12' if quick else '150', '--orders', '3' if quick else '4']
+    args = ['c20e2e', '--out', out, '--scenarios', '12' if quick else '150', '--orders', '3' if quick else '4',
+            '--all-perms', '2' if quick else '8']
     rc, text = ck.run_harness(binary, args, timeout=3000)
     if not ck.ob('harness c20e2e ran', rc == 0 and os.path.exists(out), 'correspondence', text[-2000:]):
         return
@@ -113,7 +125,8 @@ def e2e(ck, binary, quick):
     ck.count(summary['evaluations'])
     ck.cov['e2e_distribution'] = {k: summary[k] for k in (
         'scenarios', 'nexus_instances', 'projections', 'statuses', 'excluded_reasons', 'policies', 'with_rivals',
-        'bridging', 'ledgers_in_id_order', 'features')}
+        'bridging', 'ledgers_in_id_order', 'features', 'all_permutation_scenarios', 'all_permutation_orders',
+        'two_unattributed_on_one_side')}
     for f in summary['failures']:
         cls = 'e2e-order-dependence' if 'recording order' in f['what'] else 'e2e-oracle-mismatch'
         ck.violation(cls, f['what'], True, {'failing_input': f})
@@ -145,3 +158,7 @@ def e2e(ck, binary, quick):
     ck.ob('model project = implementation end-to-end on %d projections (status, score bits, group counts, '
           'supporting/opposing/uncertain/excluded ledgers as sets)' % len(cases), not bad and len(cases) > 0,
           'correspondence', detail)
+    good = ck.eval_cases(IMPORTS, 'ecase * eobs', 'e2e_good', cases, label='e2e_good')
+    ck.ob('premise of C20_aggregate_perm_float holds on all %d end-to-end projections' % len(cases),
+          all(g is True for g in good) and len(cases) > 0, 'correspondence',
+          json.dumps(next((model_rows[i]['case'] for i, g in enumerate(good) if g is not True), ''))[:800])
